@@ -37,6 +37,7 @@ type Session struct {
 	LockW        *tracew.Writer // locking trace (may be nil)
 	BridgeW      *tracew.Writer // bridge trace (may be nil)
 	bridgeAddrID func(string) string
+	afterImport  bool // the next block is the first one of a chain initialised from an export
 
 	// harness-side interning of the randomness accumulator: hash chain over accepted vote signatures
 	rdao    []byte
@@ -409,6 +410,16 @@ func (s *Session) relView(st *project.RelayerState) Ev {
 		"accepted": st.Accepted, "rec": st.Rec, "onQ": st.OnQ, "offQ": st.OffQ, "seq": st.Seq,
 		"randao": rd, "pubkeys": st.Pubkeys, "accounts": st.Accounts, "unknown": st.Unknown,
 		"bridge": project.StoreDigest(s.C, "bitcoin"), "tip": st.Tip, "curKey": st.CurKey,
+	}
+}
+
+// relViewRaw is relView for export/import comparisons: the accumulator is kept as an opaque string.
+func (s *Session) relViewRaw(st *project.RelayerState, c *sim.Chain) Ev {
+	return Ev{
+		"proposer": st.Proposer, "voters": st.Voters, "epoch": st.Epoch, "lastElected": st.LastElected,
+		"accepted": st.Accepted, "rec": st.Rec, "onQ": st.OnQ, "offQ": st.OffQ, "seq": st.Seq,
+		"randao": []string{st.Randao}, "pubkeys": st.Pubkeys, "accounts": st.Accounts, "unknown": st.Unknown,
+		"bridge": project.StoreDigest(c, "bitcoin"), "tip": st.Tip, "curKey": st.CurKey,
 	}
 }
 
